@@ -157,9 +157,16 @@ size_t psBufGetMaxAppendSize(const psBuf_t *buf)
 void *psBufAppendSize(psBuf_t *buf, size_t sz)
 {
     unsigned char *loc = buf->end;
-    unsigned char *bufend = buf->buf + buf->size;
+    unsigned char *bufend;
 
-    if (loc + sz <= bufend)
+    if (buf->buf == NULL)
+    {
+        /* Unallocated (e.g. allocation failed): nothing can be appended,
+           and no arithmetic may be done on the null pointers. */
+        return NULL;
+    }
+    bufend = buf->buf + buf->size;
+    if (sz <= (size_t) (bufend - loc))
     {
         buf->end += sz;
     }
@@ -342,16 +349,25 @@ static void *psDynBufGrow(psDynBuf_t *db, size_t head_sz, size_t tail_sz)
     void *alloc;
     void *loc;
     psBuf_t new;
-    size_t headroom = db->buf.start - db->buf.buf;
-    size_t tailroom = (db->buf.buf + db->buf.size) - db->buf.end;
-    size_t filled = db->buf.end - db->buf.start;
+    size_t headroom;
+    size_t tailroom;
+    size_t filled;
     size_t offset;
     size_t offset_tail;
 
-    if (db->err)
+    if (db->err || db->buf.buf == NULL)
     {
+        /* Failed earlier: stay failed, and keep away from the null
+           pointers of the unallocated buffer. */
+        if (!db->err)
+        {
+            db->err++;
+        }
         return NULL;
     }
+    headroom = db->buf.start - db->buf.buf;
+    tailroom = (db->buf.buf + db->buf.size) - db->buf.end;
+    filled = db->buf.end - db->buf.start;
 
     if (head_sz != 0 && head_sz < PS_DYNBUF_GROW)
     {
